@@ -2,17 +2,15 @@
 # usage: trymut.sh <patch> <ID> [tier] — applies the patch to a scratch copy of /repo (HEAD plus
 # working tree), runs the check against it (VERIF_REPO), and removes the copy. /repo itself is not
 # touched, so background sweeps that rebuild from /repo are not disturbed. Evidence and replay
-# files written by the mutated run are discarded (evidence restored from a copy).
+# files of the mutated run go to a scratch output directory (VERIF_OUT) and are discarded, so
+# several of these can run at the same time and /verif/evidence is never touched.
 set -u
 scratch=/tmp/trymut-repo-$$
-rm -rf $scratch; cp -a /repo $scratch || exit 2
+out=/tmp/trymut-out-$$
+rm -rf $scratch $out; cp -a /repo $scratch || exit 2
 (cd $scratch && git apply "$1") || { echo "patch does not apply"; rm -rf $scratch; exit 2; }
+mkdir -p $out/evidence $out/replays; cp /verif/known_findings.json $out/
 cd /verif
-cp evidence/$2.json /tmp/evidence-$2.keep.$$ 2>/dev/null
-ls replays > /tmp/replays-before-$2.$$.txt
-VERIF_REPO=$scratch VERIF_RUN_TIMEOUT_S=900 ./check "$2" "${3:-quick}" 2>&1 | grep -v '^{' | grep "verifsim: runs\|VIOLATION\|HARNESS\|detail\|KNOWN" | cut -c1-500
-[ -f /tmp/evidence-$2.keep.$$ ] && mv /tmp/evidence-$2.keep.$$ evidence/$2.json
-for f in $(ls replays); do grep -qx "$f" /tmp/replays-before-$2.$$.txt || rm -f "replays/$f"; done
-rm -f /tmp/replays-before-$2.$$.txt
+VERIF_OUT=$out VERIF_REPO=$scratch VERIF_RUN_TIMEOUT_S=900 ./check "$2" "${3:-quick}" 2>&1 | grep -v '^{' | grep "verifsim: runs\|VIOLATION\|HARNESS\|detail\|KNOWN" | cut -c1-500 | sed "s#$out/#/verif/#"
 h=$(echo -n $scratch | md5sum | cut -c1-8)
-rm -rf $scratch sim/bin/verifsim-$h sim/go-$h.mod sim/go-$h.sum
+rm -rf $scratch $out sim/bin/verifsim-$h sim/go-$h.mod sim/go-$h.sum sim/bin/.lock-$h
